@@ -376,7 +376,10 @@ def run(ctx):
             qf = os.path.join(wd, "queries.json")
             with open(qf, "w") as f:
                 json.dump(qs, f)
-            r = ctx.tlc("TargetChoice", "MC_TargetChoice", "MC_TargetChoice_%s.cfg" % name, workdir=wd, env={"QUERY_FILE": qf},
+            env = {"QUERY_FILE": qf}
+            if ctx.quick:     # short run: C1-only JIT halves the JVM's CPU time (measured); local workaround, tlc.py untouched
+                env["JAVA_TOOL_OPTIONS"] = "-XX:TieredStopAtLevel=1"
+            r = ctx.tlc("TargetChoice", "MC_TargetChoice", "MC_TargetChoice_%s.cfg" % name, workdir=wd, env=env,
                         coverage=(n_run == 0), timeout=3000)
             if not r.ok:
                 ctx.require(False, "TargetChoice violates %s (%s): specification error\n%s" % (r.violated, name, r.stdout[-1500:]))
@@ -393,6 +396,7 @@ def run(ctx):
 
         async def main():
             nonlocal total
+            sampled = set()
             for name, behs in batches:
                 n = 0
                 for key in sorted(behs):
@@ -405,10 +409,20 @@ def run(ctx):
                     ctx.evaluations += reps - 1
                     await _bind(ctx, beh, reps, key)
                     n += 1
-                    if n % 7 == 0:
-                        ctx.sample({"family": name, "targets": beh["cfg"]["targets"], "filters": beh["cfg"]["filters"],
-                                    "jobs": beh["cfg"]["jobs"], "hosts": beh["cfg"]["hosts"], "model": beh["out"]}) \
-                            if (nontrivial and len(ctx.samples) < 4 and beh["out"][0]["result"] == "alloc") else None
+                    cat = None
+                    outs = beh["out"]
+                    if len(outs) >= 2 and outs[0]["result"] == "alloc" and outs[1]["result"] == "alloc" and outs[0]["chosen"] != outs[1]["chosen"]:
+                        cat = "second-job-goes-to-a-later-target"
+                    elif len(beh["cfg"]["filters"]) >= 2 and outs[0]["result"] == "alloc" and len(outs[0]["trail"][0]) >= 2:
+                        cat = "chained-filters"
+                    elif outs[0]["result"] == "alloc" and outs[0]["trail"] and len(outs[0]["trail"][-1]) >= 2 and outs[0]["chosen"] != outs[0]["trail"][-1][0]:
+                        cat = "first-survivor-full"
+                    elif outs[0]["result"] == "pending":
+                        cat = "pending"
+                    if cat and (name == "random", cat) not in sampled:
+                        sampled.add((name == "random", cat))
+                        ctx.sample({"family": name, "class": cat, "targets": beh["cfg"]["targets"], "filters": beh["cfg"]["filters"],
+                                    "jobs": beh["cfg"]["jobs"], "hosts": beh["cfg"]["hosts"], "model": outs}, limit=8)
                 ctx.count("configurations:%s" % name, n)
                 total += n
         _, exc = aio.run(main(), timeout=3000)
